@@ -1868,8 +1868,10 @@ class Node:
             peer = usable_peers[0]
             self.logger.debug(f"Selected only available peer {peer.connection} for app {app}")
         conn = peer.connection
-        if conn is None:
-            # removed since the peers were looked at
+        if conn is None or conn.state not in PEER_READY_STATES:
+            # removed since the peers were looked at - or removed and dialled
+            # again: the peer then has a new connection that has not completed
+            # its capabilities exchange
             raise NotRoutable("The selected connection has gone away")
 
         if not message.header.hop_by_hop_identifier:
